@@ -373,6 +373,18 @@ theorem C04_attr_visible_iff_reach_acyclic (s : Schema) (e : Entity) (an : Strin
     AttrVisible s (s.decls.length + 1) e an ↔ ∃ x, ReachRefl (superGraph s) e.name x ∧ ownsAttr s an x = true :=
   C04_attr_visible_iff_reach s _ e an (fun hn => hacyc (C04_self_attr_lookup_terminates s an e.name hn))
 
+/-- **the qualifier of `SELF\name.attr`** (`ENTITYfind_inherited_entity( e, name, 0 )`, the condition `isAncestor` inside `RedeclWF` /
+    `UniqueWF`): with fuel `f` it succeeds ⇔ a chain of at most `f` `SUBTYPE OF` edges leads from the entity to `name` -/
+theorem C04_qualifier_lookup_iff_path (s : Schema) (name : String) (fuel : Nat) (en : String) :
+    isAncestor s name fuel en = true ↔
+      ∃ l, l ≠ [] ∧ l.length ≤ fuel ∧ IsPath (superGraph s) en l ∧ l.getLast? = some name :=
+  isAncestor_iff_path s name fuel en
+
+/-- in particular a qualifier that is accepted names a proper ancestor -/
+theorem C04_qualifier_lookup_sound (s : Schema) (name : String) (fuel : Nat) (en : String)
+    (h : isAncestor s name fuel en = true) : Reach (superGraph s) en name :=
+  isAncestor_sound s name fuel en h
+
 /-- **overloaded attribute, stated without the look-up function**: `ENTITYresolve_expressions` reports OVERLOADED_ATTR for `e` ⇔ some new
     (not redeclared) attribute of `e` has a second declaration in a direct supertype or in an entity reachable from one through
     `SUBTYPE OF` — two distinct reachable declarations of one name.  (The look-up is the marked search the code uses since C06-17; it
